@@ -23,7 +23,7 @@ PROP = dict(
     engines=[dict(hx="crash", timeout=2400)],
     theorems=["C21_refuted", "C21_crash_modulo_findings", "C21_untouched_state_kept", "C21_superseded_never_deletes_live", "C21_clean_start_nothing_restored"],
     model_files="coq/Storage/StoreHooks.v coq/Storage/Restart.v coq/Storage/Crash.v coq/Storage/RestartEngine.v",
-    rule="every k in 0..(number of writes) of: the 16 directed histories of C20 (incl. Clean Start 1 over a live and over an offline session with unacknowledged QoS 1/2 messages) (bolt+redis; thorough all four) and random "
+    rule="every k in 0..(number of writes) of: the 18 directed histories of C20 (incl. Clean Start 1 over a live and over an offline session with unacknowledged QoS 1/2 messages) (bolt+redis; thorough all four) and random "
          "histories of 5..20 client operations (quick 10, alternating bolt/redis; thorough 100 on pebble+bolt+redis, "
          "every 10th also badger).  non-trivial = k > 2; distinct = distinct case lines",
     exhaustive=False,
